@@ -10,8 +10,8 @@ PROFILES = {
     # C01: derivation x write-form x later-observer
     "alias": {
         "weights": {
-            "vec": 8, "tab_dict": 6, "tab_vecs": 6, "input_tuple": 1, "input_list": 1, "vec_of_input": 2,
-            "copy": 4, "deepcopy": 1, "getitem": 6, "tsel": 3, "t2d": 3, "rshift": 5, "lshift": 3, "T": 1,
+            "vec": 8, "tab_dict": 6, "tab_vecs": 6, "input_tuple": 2, "input_list": 1, "vec_of_input": 2, "vec_of_cols": 2,
+            "copy": 4, "deepcopy": 1, "getitem": 6, "row": 3, "tsel": 3, "t2d": 3, "rshift": 5, "lshift": 3, "T": 1,
             "binop": 3, "unop": 1, "cast": 1, "fillna": 1, "v0": 1, "sort": 3, "join": 3, "agg": 2, "method": 1,
             "view": 10, "set": 14, "tset": 8, "setattr": 6, "setname": 3, "alias": 1, "rencol": 2, "rencols": 1,
             "read": 5, "reduce": 1, "drop": 3, "repr_rows": 0.3,
@@ -26,32 +26,35 @@ PROFILES = {
     # C02: rectangularity under construction / structural ops / failing inputs
     "shape": {
         "weights": {
-            "vec": 8, "tab_dict": 8, "tab_vecs": 8, "tab_empty": 1, "copy": 2, "getitem": 6, "tsel": 3, "t2d": 4,
-            "rshift": 8, "lshift": 8, "T": 4, "sort": 2, "join": 3, "agg": 1, "binop": 2,
+            "vec": 8, "tab_dict": 8, "tab_vecs": 8, "tab_empty": 1, "copy": 2, "getitem": 6, "row": 2, "tsel": 3, "t2d": 4,
+            "rshift": 8, "lshift": 8, "T": 9, "sort": 2, "join": 3, "agg": 1, "binop": 2,
             "view": 4, "set": 4, "tset": 8, "setattr": 8, "setname": 1, "rencol": 1, "rencols": 1,
             "read": 3, "drop": 3,
         },
         "core": ["vec", "tab_dict", "tab_vecs"],
         "knobs": {"p_fault": [0.0, 0.1, 0.2], "p_natural": [0.05, 0.1, 0.2], "p_ragged": [0.1, 0.2, 0.35],
-                  "p_col_from_vec": [0.0, 0.3], "max_objs": [6, 9], "p_empty": [0.05, 0.15], "p_dupname": [0.0, 0.15]},
+                  "p_col_from_vec": [0.0, 0.3], "max_objs": [3, 6, 9], "p_empty": [0.05, 0.15], "p_dupname": [0.0, 0.15], "focus": [0.6, 0.85]},
         "steps": (15, 50),
+        "vid": [[1, 0, 0], [1, 0, 0], [1, 2, 0], [1, 1, 2]],
     },
     # C03: every vector-producing path, applied to products of earlier steps
     "dtype": {
         "weights": {
-            "vec": 10, "tab_dict": 3, "tab_vecs": 2, "copy": 2, "getitem": 4, "lshift": 6, "rshift": 2,
+            "vec": 10, "vnew": 2, "tab_dict": 5, "tab_vecs": 2, "copy": 2, "getitem": 4, "row": 5, "lshift": 6, "rshift": 2,
             "binop": 10, "unop": 6, "cast": 4, "fillna": 5, "v0": 5, "sort": 3, "join": 3, "agg": 3, "method": 3,
-            "view": 3, "set": 12, "tset": 4, "setattr": 1, "read": 1, "drop": 3,
+            "view": 4, "set": 12, "tset": 7, "setattr": 1, "read": 1, "drop": 3,
         },
         "core": ["vec", "set", "binop"],
         "knobs": {"p_natural": [0.0, 0.05], "p_wider": [0.15, 0.3], "p_incompat": [0.05, 0.1], "p_none_write": [0.1, 0.2],
-                  "p_foreign": [0.0, 0.05], "max_objs": [6, 9]},
+                  "p_foreign": [0.0, 0.05], "max_objs": [6, 9],
+                  # same-kind tables (matrix-like) now and then: a row of such a table is typed by the columns
+                  "kinds": [None, None, ["int"], ["int", "float"], ["bool", "int"], ["date", "datetime"]]},
         "steps": (15, 50),
     },
     # C15: process-lifetime histories with adversarial identity reuse and deferred collection
     "lifetime": {
         "weights": {
-            "vec": 12, "input_tuple": 5, "vec_of_input": 8, "drop_input": 2, "copy": 3, "getitem": 4, "binop": 2,
+            "vec": 12, "input_tuple": 5, "vec_of_input": 8, "vec_of_cols": 3, "drop_input": 2, "copy": 3, "getitem": 4, "binop": 2,
             "tab_dict": 3, "tab_vecs": 4, "rshift": 4, "lshift": 2, "t2d": 1, "view": 5, "setattr": 4, "deepcopy": 1,
             "writeback": 16, "set": 4, "tset": 2, "drop": 10, "park": 4, "collect": 3, "read": 1,
         },
@@ -70,7 +73,7 @@ PROFILES = {
         },
         "core": ["vec", "tab_dict", "fp", "set", "tset", "view"],
         "knobs": {"p_fault": [0.0, 0.05], "p_natural": [0.0, 0.05], "p_wider": [0.1, 0.25], "max_objs": [4, 6, 9],
-                  "rare": [0.0, 0.02]},
+                  "rare": [0.0, 0.02], "len": [(0, 6), (0, 6), (5, 12)]},
         "steps": (15, 50),
         "vid": [[1, 0, 0], [1, 2, 0], [1, 1, 2], [0, 1, 3]],
     },
@@ -84,7 +87,8 @@ PROFILES = {
         "core": ["vec", "tab_dict", "binop", "agg", "join"],
         "knobs": {"p_unnamed": [0.2, 0.4], "p_dupname": [0.05, 0.25], "p_unnamed_col": [0.05, 0.2], "p_wider": [0.1, 0.2],
                   "max_objs": [6, 9], "names": [["a", "b", "c", "d", "x", "y"], ["a", "b", "A b", "x-y", "sum", "a"],
-                            ["a", "b", "a_sum", "a_sum2", "a_count", "b_mean", "key", "key2", "col_sum"]]},
+                            ["a", "b", "a_sum", "a_sum2", "a_count", "b_mean", "key", "key2", "col_sum"],
+                            ["a", "A", "a b", "A b", "a_b", "x-y", "x y", "Total", "total"]]},
         "steps": (15, 50),
     },
     # C09 / C12 history part: joins and aggregates inside histories that write to key columns,
